@@ -225,33 +225,54 @@ type job struct {
 
 func v6Bases(thorough bool) []named {
 	var out []named
-	enc := func(n string, m dhcpv6.DHCPv6) {
-		if b, ok := safeEncode(n, m.ToBytes); ok {
+	// enc builds and encodes one corpus message; everything runs under recover
+	// (see safeEncode). A nil message means "not applicable".
+	enc := func(n string, mk func() dhcpv6.DHCPv6) {
+		if b, ok := safeEncode(n, func() []byte {
+			m := mk()
+			if m == nil {
+				return nil
+			}
+			return m.ToBytes()
+		}); ok && len(b) > 0 {
 			out = append(out, named{n, b})
 		}
 	}
+	xid := [3]byte{1, 2, 3}
 	ins := corpus6.Instances()
 	for _, in := range ins {
 		in := in
-		enc("v6/instance("+in.Name+")/top-level(message)", corpus6.NewMessage(7, [3]byte{1, 2, 3}, in.Build()))
-		enc("v6/instance("+in.Name+")/top-level(relay)", corpus6.NewMessage(12, [3]byte{1, 2, 3}, dhcpv6.OptRelayMessage(corpus6.InnerMessage(1)), in.Build()))
+		enc("v6/instance("+in.Name+")/top-level(message)", func() dhcpv6.DHCPv6 { return corpus6.NewMessage(7, xid, in.Build()) })
+		enc("v6/instance("+in.Name+")/top-level(relay)", func() dhcpv6.DHCPv6 {
+			return corpus6.NewMessage(12, xid, dhcpv6.OptRelayMessage(corpus6.InnerMessage(1)), in.Build())
+		})
 		for _, ct := range corpus6.Containers() {
-			w := ct.Wrap(in.Build())
-			if w == nil {
-				continue
-			}
-			enc("v6/instance("+in.Name+")/in "+ct.Name, corpus6.NewMessage(7, [3]byte{1, 2, 3}, w))
+			ct := ct
+			enc("v6/instance("+in.Name+")/in "+ct.Name, func() dhcpv6.DHCPv6 {
+				w := ct.Wrap(in.Build())
+				if w == nil {
+					return nil
+				}
+				return corpus6.NewMessage(7, xid, w)
+			})
 		}
 	}
 	for _, in := range corpus6.NTPSubInstances() {
-		enc("v6/ntp-suboption("+in.Name+")", corpus6.NewMessage(7, [3]byte{1, 2, 3}, corpus6.NTPWrap(in.Build())))
-		enc("v6/ntp-suboption("+in.Name+")/in relay-msg", corpus6.NewMessage(12, [3]byte{1, 2, 3}, dhcpv6.OptRelayMessage(corpus6.NewMessage(7, [3]byte{1, 2, 3}, corpus6.NTPWrap(in.Build())))))
+		in := in
+		enc("v6/ntp-suboption("+in.Name+")", func() dhcpv6.DHCPv6 { return corpus6.NewMessage(7, xid, corpus6.NTPWrap(in.Build())) })
+		enc("v6/ntp-suboption("+in.Name+")/in relay-msg", func() dhcpv6.DHCPv6 {
+			return corpus6.NewMessage(12, xid, dhcpv6.OptRelayMessage(corpus6.NewMessage(7, xid, corpus6.NTPWrap(in.Build()))))
+		})
 	}
 	for _, ch := range corpus6.Chains() {
-		enc("v6/chain("+ch.Name+")", corpus6.NewMessage(7, [3]byte{1, 2, 3}, ch.Build()))
-		enc("v6/chain("+ch.Name+")/in relay", corpus6.NewMessage(12, [3]byte{1, 2, 3}, dhcpv6.OptRelayMessage(corpus6.NewMessage(7, [3]byte{1, 2, 3}, ch.Build()))))
+		ch := ch
+		enc("v6/chain("+ch.Name+")", func() dhcpv6.DHCPv6 { return corpus6.NewMessage(7, xid, ch.Build()) })
+		enc("v6/chain("+ch.Name+")/in relay", func() dhcpv6.DHCPv6 {
+			return corpus6.NewMessage(12, xid, dhcpv6.OptRelayMessage(corpus6.NewMessage(7, xid, ch.Build())))
+		})
 	}
 	for _, m := range corpus6.Messages(thorough) {
+		m := m
 		if strings.HasPrefix(m.Name, "max-length/") {
 			continue // 65 kB single values belong to the extremes (c)
 		}
@@ -264,7 +285,7 @@ func v6Bases(thorough bool) []named {
 				continue
 			}
 		}
-		enc("v6/message("+m.Name+")", m.Build())
+		enc("v6/message("+m.Name+")", m.Build)
 	}
 	return append(out, v6Special()...)
 }
